@@ -175,6 +175,9 @@ func c09Body(x *explore.Ctx, server, deflate bool, pi, ki int, ping bool) {
 		})
 	}
 	s.Run()
+	for _, t := range s.Trace {
+		x.Logf("schedule: %s", t)
+	}
 	c09Judge(x, s, l, nc, server, deflate, msgs)
 }
 
